@@ -29,7 +29,7 @@ class Server:
     def start(self):
         self.port = free_port()
         self.log = open(os.path.join(self.root, 'server.log'), 'ab')
-        self.proc = subprocess.Popen([SERVER_BIN, '--serve', '--data-folder', self.data, '--syzgy-host', '127.0.0.1:%d' % self.port, '--html-root', ''],
+        self.proc = subprocess.Popen([SERVER_BIN, '--serve', '--data-folder', self.data, '--syzgy-host', '127.0.0.1:%d' % self.port, '--html-root', '', '--ollama-server', '127.0.0.1:1'],
                                      cwd=self.root, stdout=self.log, stderr=self.log)
         for _ in range(200):
             if self.proc.poll() is not None:
